@@ -51,7 +51,7 @@ def rand_defined_payload(rng, identity=None, **kw):
         _IDS = [i for i in refmodel.identities() if refmodel.reachable(i)]
     if identity is None:
         identity = rng.choice(_IDS)
-    kw.setdefault("vstrat", rng.choice(("random", "mixed", "ones", "zero")))
+    kw.setdefault("vstrat", rng.choice(("random", "mixed", "ones", "zero", "related")))
     kw.setdefault("cstrat", rng.choice(("small", "small", "one", "random")))
     if "tabs" not in kw and rng.random() < 0.4:
         # laid out from the PINNED field layouts (vf.stdlayout) instead of the repository's tables read as data: a
@@ -86,10 +86,21 @@ def rand_frame(rng, kind=None):
     if kind == "steered":
         # a valid frame whose CHECKSUM BYTES have a chosen value (zeros, ones, CR LF, sync bytes, '%', quotes ...): the
         # last three payload bytes (padding behind the last field / unknown-type content) steer the CRC
-        base = rand_defined_payload(rng) if rng.random() < 0.5 else rand_unknown_payload(rng, rng.randint(2, 60))
-        if len(base) > 1020:
-            base = rand_unknown_payload(rng, 20)
-        p = steer_payload(base, rng.choice(STEER_TARGETS))
+        defined = rng.random() < 0.5
+        base = rand_defined_payload(rng) if defined else rand_unknown_payload(rng, rng.randint(2, 60))
+        if len(base) > 1014:
+            base, defined = rand_unknown_payload(rng, 20), False
+        tgt = rng.choice(STEER_TARGETS)
+        if rng.random() < 0.25 and len(base) > 8:
+            # ... and the SAME three bytes also occur inside the payload (a payload that contains its own checksum):
+            # in the padding behind the last field of a defined message, anywhere in an unknown-type payload
+            tgt = rng.getrandbits(24) | 0x010101
+            if defined:
+                base = base + tgt.to_bytes(3, "big")
+            else:
+                k_ = rng.randrange(3, len(base) - 3)
+                base = base[:k_] + tgt.to_bytes(3, "big") + base[k_ + 3:]
+        p = steer_payload(base, tgt)
     elif kind == "defined":
         p = rand_defined_payload(rng)
     elif kind == "defmax":
@@ -102,6 +113,8 @@ def rand_frame(rng, kind=None):
         p = bytes([rng.getrandbits(8)])
     elif kind == "len2-4076":  # IGS family header without its sub-type byte: carries no complete identity
         p = bytes([0xFE, 0xC0 | rng.getrandbits(4)])
+    elif kind == "len2-fe":  # two-byte payloads of the numbers 4064..4079 other than 4076 (they share the first byte)
+        p = bytes([0xFE, (rng.choice([x for x in range(16) if x != 0xC]) << 4) | rng.getrandbits(4)])
     else:
         ln = int(kind[3:])
         p = rand_unknown_payload(rng, ln) if rng.random() < 0.7 else pad_payload(
@@ -120,13 +133,17 @@ def has_msgnum(payload: bytes) -> bool:
     return True
 
 
-def nmea(rng, maxlen=70) -> bytes:
+def nmea(rng, maxlen=70, sloppy=False) -> bytes:
+    """sloppy=True: sentences as careless talkers write them (non-hex or wrong checksum characters, CR CR LF)."""
     body = "".join(chr(rng.randint(0x20, 0x7E)) for _ in range(rng.randint(0, maxlen)))
     body = body.replace("\r", "x")
     s = "$" + rng.choice(NMEA_SECOND) + body
     ck = 0
     for c in s[1:]:
         ck ^= ord(c)
+    if sloppy and rng.random() < 0.6:
+        tail = rng.choice(("*G7", "*7_", "*0x", "*ZZ", "* 1", f"*{ck ^ 0x5A:02X}", "*", ""))
+        return (s + tail + rng.choice(("\r\n", "\r\r\n", "\n"))).encode("ascii")
     return (s + f"*{ck:02X}\r\n").encode("ascii")
 
 
@@ -213,7 +230,8 @@ def damage_positions(rng, nbits_total, lo_bit, cls=None):
     if cls == "syndrome" and span >= 24 and nbits_total % 8 == 0:
         # burst (<= 24 bits) whose CRC residue is a single bit / low-weight pattern
         k = rng.choice((lo_bit, nbits_total - 24, rng.randrange(lo_bit, nbits_total - 23)))
-        target = rng.choice([1 << i for i in range(24)] + [0xF, 0xFF, 3, 0x800001])
+        target = rng.choice([1 << i for i in range(24)] + [0xF, 0xFF, 3, 0x800001] + [0xFFFFFF] * 6
+                            + [0xFFFFFE, 0x7FFFFF, 0xFFFF00, 0x00FFFF, 0xFF0000, 0x864CFB, 0x010000])
         pos = syndrome_burst(nbits_total // 8, k, target)
         if pos:
             return "syndrome", list(pos)
@@ -370,6 +388,20 @@ def steer_payload(prefix: bytes, target: int) -> bytes:
         raise RuntimeError("steering failed")
     out = prefix + t.to_bytes(3, "big")
     assert refcrc.frame(out)[-3:] == target.to_bytes(3, "big")
+    return out
+
+
+def steer_raw(prefix: bytes, target: int) -> bytes:
+    """prefix + 3 bytes such that the CRC-24Q remainder of the whole byte string is `target` (no framing)."""
+    steer_payload(b"\x00", 0)  # make sure the basis exists
+    want = refcrc.crc_ref2(prefix + b"\x00\x00\x00") ^ target
+    t = 0
+    for bimg, bpre in _STEER["basis"]:
+        if want ^ bimg < want:
+            want ^= bimg
+            t ^= bpre
+    out = prefix + t.to_bytes(3, "big")
+    assert want == 0 and refcrc.crc_ref2(out) == target
     return out
 
 
